@@ -800,6 +800,12 @@ def slLine (st : St) (line : String) : St × List String :=
                         caseHash := mixHash st.caseHash (hash l) }
     -- Finding F2 probe (outside the model: the model has no unit-struct component type). The specification is C14's
     -- own statement: every marked source entity's component is there after the round trip, whatever the format.
+    if lt == ["scratch_failed_save"] then
+      -- outside the model: a recursive save that fails half-way in ANOTHER world of the same thread; the worlds of the
+      -- case are untouched (what follows is compared as usual)
+      if toks r == ["ok"] then (st, [])
+      else (st, [s!"BAD case={st.caseId} line={st.lineNo} scratch_failed_save: the arranged failure did not happen: {r}"])
+    else
     if lt == ["unit_roundtrip"] then
       (match toks r with
        | ["unit", "kept", k, "of", n] =>
